@@ -70,6 +70,7 @@ type Result struct {
 	Unsafe         string // non-empty: some rule body has a literal that never becomes evaluable (names it)
 	Unstratifiable bool
 	Capped         bool           // a cap was hit: no verdict possible
+	CappedByFacts  bool           // the fact cap (not the step cap) was hit: the model has more than MaxFacts facts
 	Err            error          // a function or built-in reported an error (e.g. division by zero, type error)
 	Rounds         map[string]int // per stratum (joined predicate names): number of naive rounds
 	DoOnRecursive  bool           // an aggregating rule's head predicate is also derived recursively in its stratum
@@ -115,6 +116,7 @@ func (ev *evaluator) add(f Fact) bool {
 	ev.byPred[pk] = append(ev.byPred[pk], f)
 	if len(ev.model) > ev.opts.MaxFacts {
 		ev.res.Capped = true
+		ev.res.CappedByFacts = true
 	}
 	return true
 }
